@@ -601,8 +601,40 @@ def check_C11(tier, seed):
             raise vlib.ToolFailure("; ".join(problems))
         return ws
 
+    def build_tracks(wd, mc_stats):
+        # track level: the derived columns of the stored Track rows after create / update / set_relative_path / other setters /
+        # remove, with paths whose file name and extension change (TraceTrackFields!RawTracksOK)
+        import trackchecks
+        res, bases, seqs = trackchecks.run_mc_track(wd, 1)
+        mc_stats.append({"instance": res["instance"], "states": res["states"], "transitions": res["generated"]})
+        mk = trackchecks.mk
+        by_field = {}
+        for sq in seqs:
+            if len(sq) == 1:
+                by_field.setdefault(sq[0]["f"], []).append(sq[0]["v"])
+        r = random.Random(seed * 29)
+        paths = ["../Music/renamed.wav", "a/b/transcoded.flac", "x.y/two.dots.ogg", "UPPER/CASE.MP3", "no/slash.aiff", "uml/\u00e4\u00f6.m4a"]
+        scripts = []
+        for base in ("full", "min", "edge"):
+            ops = [mk("create", snap=bases[base]), mk("create", snap=dict(bases["sentinels"], relative_path=["other/t2.flac"]))]
+            for p in r.sample(paths, 3):
+                ops.append(mk("update", t=1, snap=dict(bases["full"], relative_path=[p])))
+                ops.append(mk("set", t=2, f="relative_path", v=[p.replace(".", "-2.", 1) if p.count(".") == 1 else "z/" + p]))
+            for v in by_field.get("relative_path", []):
+                ops.append(mk("set", t=1, f="relative_path", v=v))
+            for f in r.sample(sorted(by_field), 6):
+                ops.append(mk("set", t=1, f=f, v=r.choice(by_field[f])))
+            ops += [mk("update", t=2, snap=bases["edge"]), mk("remove", t=1), mk("create", snap=dict(bases["min"], relative_path=["again/t3.wav"])),
+                    mk("update", t=3, snap=dict(bases["full"], relative_path=["again/t3.mp3"])), mk("remove", t=2)]
+            scripts.append(ops)
+        ws = []
+        for s in (vlib.quick_schemas(seed, 2) if tier == "quick" else vlib.ALL):
+            ws.append(Workload(s, scripts, [], flags={"raw": True}, tag="t", origin=res["instance"]))
+        return ws
+
+    import trackchecks as _tc
     return history_check(
-        "C11", tier, seed, build,
+        "C11", tier, seed, build, also=[{"driver": "trackdriver", "build": build_tracks, "module": "TraceTrackFields", "cfg": _tc.track_cfg()}],
         rule="after every call of the replayed histories an independent reader (plain SQLite C API) dumps the raw rows; "
              "TLC evaluates RawStore!RawV1OK / RawV2OK on them against the abstract state: PRAGMA integrity_check and "
              "foreign_key_check clean, verify() passes; 1.x: Crate.path = names root->crate each followed by ';', one "
